@@ -3,7 +3,7 @@
    fixed F-C18-1 recorded token overwritten, F-C18-2 service as minter). *)
 From Coq Require Import String List NArith Lia Bool.
 From Ax Require Import Lib.Bytes Lib.Mvx Lib.SolAbi Lib.Keccak Model.Check Model.Env Model.Gateway Model.TokenManager Model.Its
-     Proofs.GatewayMsgs Proofs.TMFacts Proofs.ItsFacts Proofs.ItsWorld Proofs.ItsMore Proofs.TMToken Proofs.ItsTokens Gen.Generated.
+     Proofs.GatewayMsgs Proofs.TMFacts Proofs.ItsFacts Proofs.ItsWorld Proofs.ItsMore Proofs.TMToken Proofs.ItsTokens Proofs.ItsGwOrigin Gen.Generated.
 Import ListNotations.
 Open Scope N_scope.
 
@@ -59,8 +59,21 @@ Section C18.
   Proof. exact (istep_token_forever H verify). Qed.
   Theorem c18_token_forever : forall a ops w, Forall (fun o => forall c, iop_ctx o = Some c -> ic_newtm c <> a) ops -> tka a w (irun H verify w ops).
   Proof. exact (irun_token_forever H verify). Qed.
+  (* end to end (Proofs/ItsGwOrigin.v): an inbound deployment step accepted after any history that started without the message traces
+     back to an approveMessages transaction of that history, accepted by the gateway, whose batch named exactly this message *)
+  Theorem c18_deploy_traces_to_batch : forall ops w0 c chain id src ph payload w' ev token_id name symbol dec minter ty,
+    mst (iw_gw w0) (chain, id) = None ->
+    dec_impl [PUint; PBytes32; PString; PString; PUint8; PBytes] payload = Some [TUint ty; TBytes32 token_id; TString name; TString symbol; TUint8 dec; TBytes minter] ->
+    process_deploy H (irun H verify w0 ops) c chain id src ph payload = Some (w', ev) ->
+    exists cg raw p ms m pre,
+      In (IGateway (GApprove cg raw p)) ops /\ dec_messages_top raw = Some ms /\ In m ms /\ mkey m = (chain, id) /\
+      mhash H m = message_hash H chain id src (ic_self c) ph /\
+      Forall (fun o => In (IGateway o) ops \/ is_val o) pre /\
+      approve_messages H verify (grun H verify (iw_gw w0) pre) raw p <> None.
+  Proof. exact (deploy_traces_to_batch H verify). Qed.
 End C18.
 Print Assumptions c18_inbound_two_step.
+Print Assumptions c18_deploy_traces_to_batch.
 Print Assumptions c18_token_never_replaced.
 Print Assumptions c18_token_forever.
 Print Assumptions c18_mintership_leaves_service.
